@@ -62,6 +62,8 @@ def do_run(prep, o=None):
     if isinstance(o, dict) and "uniform_latency" in o:       # every read takes that long, whatever the order
         lat = float(o["uniform_latency"])
         return wf_run.run_prepared(prep, order=None, extra_latency=lambda i, method, key: lat if method == "GET" else 0.0)
+    if isinstance(o, dict) and "repeat" in o:                # the same sequential pass once more
+        return wf_run.run_prepared(prep)
     if isinstance(o, dict):
         return wf_run.run_prepared(prep, order=o.get("order"), lookup_latency=o["lookup_latency"])
     return wf_run.run_prepared(prep, order=o)
@@ -98,11 +100,13 @@ def first_difference(runs):
 def order_oracle(case, runs, limit, prep=None):
     """C02's clauses on the implementation; list of (order, what)"""
     bad = []
-    d = first_difference(runs)
+    d = None if runs[0][1].get("rejected") else first_difference(runs)
     if d:
         bad.append((d[0], f"Result differs from the sequential pass in {d[1]} under completion order {d[0]}"))
     for o, obs in runs:
-        if obs.get("raised"):
+        if obs.get("rejected"):
+            bad.append((o, c01.REJECTED + "; ".join(obs["rejected"])))
+        elif obs.get("raised"):
             bad.append((o, f"reconcile_workflow raised {obs['raised']}"))
         elif obs["elapsed"] >= limit:
             bad.append((o, f"pass took {obs['elapsed']} virtual seconds (≥ step time-out) although every call answers in time"))
@@ -116,14 +120,19 @@ def order_oracle(case, runs, limit, prep=None):
 
 def prepare_and_base(case):
     prep = wf_run.prepare_case(case)
-    if prep.problems:
-        raise Infra(f"generated definitions rejected by prepare: {prep.problems[:2]}")
+    if prep.problems:       # the tree's behaviour on a well-formed definition, not infrastructure trouble
+        return prep, {"rejected": [str(x)[:300] for x in prep.problems[:3]], "units": []}
     return prep, do_run(prep)
 
 
 def check_case(ck, drv, r, case, tier, tag, prep=None, base=None, extra=()):
     if prep is None:
         prep, base = prepare_and_base(case)
+    if base.get("rejected"):
+        ck.evaluated()
+        small = c01.shrink(case, lambda c: bool(wf_run.prepare_case(c).problems)) if len(ck.violations) < 3 else case
+        ck.violate({"case": c01.compact(small), "order": None}, c01.REJECTED + "; ".join(base["rejected"]))
+        return
     units = base["units"]
     orders, full = orders_for(r, units, tier)
     orders = list(orders) + [dict(x, order=(list(reversed(units)) if x.get("order") == "reversed" else None))
@@ -172,6 +181,8 @@ def check_case(ck, drv, r, case, tier, tag, prep=None, base=None, extra=()):
             except Infra:
                 pass
         ck.violate({"case": c01.compact(small), "order": o}, what)
+    if case.get("no_model"):     # behaviour outside the model (a not-ready sub-workflow): implementation against itself only
+        return
     # correspondence: every realised schedule through the model's asynchronous semantics
     reqs = [gen_wf.to_req(case, schedule=obs["events"], nschedule=obs["nevents"]) for _, obs in runs]
     answers = drv.ask(reqs)
@@ -267,6 +278,13 @@ def run(tier: str) -> int:
             check_case(ck, drv, rg, gen_wf.gen_group_collision_case(rg), tier, "same-kind-word-two-groups")
         # third round: `steps` used as a whole next to a declared dependency; wide fan-outs whose every read is slow
         # (but below the step time-out); consumers applying list/map functions to one dependency value
+        rc_ = rng("c02-cluster-scoped")
+        for i in range(20 if tier == "quick" else 200):
+            check_case(ck, drv, rc_, gen_wf.gen_cluster_scoped_case(rc_), tier, "cluster-scoped")
+        rn = rng("c02-not-ready-sub")
+        for i in range(12 if tier == "quick" else 120):
+            check_case(ck, drv, rn, gen_wf.gen_not_ready_sub_case(rn), tier, "not-ready-sub-workflow",
+                       extra=[{"repeat": 1}, {"repeat": 2}])
         rw = rng("c02-whole-steps")
         for i in range(20 if tier == "quick" else 200):
             check_case(ck, drv, rw, gen_wf.gen_whole_steps_case(rw), tier, "steps-as-a-whole")
@@ -298,8 +316,10 @@ def run(tier: str) -> int:
         limit = wf_run.step_timeout()
         for i in range(120):
             c = gen_case(rr)
-            p = wf_run.prepare_case(c)
-            b = do_run(p)
+            p, b = prepare_and_base(c)
+            if b.get("rejected"):
+                ck.violate({"case": c01.compact(c), "order": None}, c01.REJECTED + "; ".join(b["rejected"]))
+                return
             orders = orders_for(rr, b["units"], "thorough")[0]
             runs = [(None, b)] + [(o, do_run(p, o)) for o in orders[:60]]
             ck.evaluated(len(runs))
